@@ -141,6 +141,21 @@ def cases(ctx):
                         "src": f"*={org:#08x}\n@=0x7e2000\n{mn} 0x7e2010\n",
                         "spec": {"t": "branch", "high": rom == "high", "p": 0x7E2000, "t_addr": 0x7E2010, "op": op, "skip": 0,
                                  "reject": True}})
+    # far targets whose distance is small only modulo the bank window / the bank / 64 KiB: out of reach, never wrapped
+    for rom in ("low", "high"):
+        bank = 0x01 if rom == "low" else 0x41
+        lo, hi = (0x8000, 0xFFFF) if rom == "low" else (0x0000, 0xFFFF)
+        far = []
+        for e in (0, 2, 0x10, 0x7F, -0x10, -0x80):
+            far += [((bank << 16) | 0x9000, ((bank + 1) << 16) | (0x9002 + e)),      # same offset, next bank
+                    ((bank << 16) | 0x9000, ((bank - 1) << 16) | (0x9002 + e)),      # same offset, previous bank
+                    ((bank << 16) | 0x9000, ((bank + 2) << 16) | (0x9002 + e)),
+                    ((bank << 16) | (hi - 0x0F), (bank << 16) | (lo + 0x12 + e if lo + 0x12 + e >= lo else lo)),   # end -> start of the bank
+                    ((bank << 16) | (lo + 0x10), (bank << 16) | (hi - 0x20 + (e if e <= 0 else -e)))]              # start -> end of the bank
+        for (p, t), (mn, op) in zip(far, br * (len(far) // len(br) + 1)):
+            out.append({"kind": "branch:far-target", "rom": rom, "src": f"*={p:#08x}\n{mn} {t:#08x}\nnop\n",
+                        "spec": {"t": "branch", "high": rom == "high", "p": p, "t_addr": t, "op": op, "skip": 0,
+                                 "reject": False}})
     # the run address is RAM because a *= (not a @=) put it there, the target is ROM within reach of the stale offset
     for rom in ("low", "high"):
         bank = 0x01 if rom == "low" else 0x41
